@@ -79,7 +79,73 @@ class C11:
                 'imag': rng.choice([rng.choice(pool), 0.01])}}
         return h
 
+    def generate_exhaustive(self, rng, tier):
+        """Bounded-exhaustive ties: m <= 5 equal priors at the radii of m
+        spheres; every subset of size >= 2 tied in one call, and every
+        subset of size >= 3 also composed from pairwise ties in a seeded
+        order, each on a fresh model."""
+        import itertools
+        b = Builder(rng)
+        m = rng.choice([3, 4, 4, 5])
+        op, args = draw_pool_prior(rng)
+        args = dict(args, name=None)
+        extra_named = rng.random() < 0.5
+
+        def fresh_model():
+            prs = [b.emit(op, dict(args, name=(rng.choice(COLLIDE)
+                                               if extra_named else None)),
+                          store='pr') for _ in range(m)]
+            members = [{'op': 'sphere', 'args': {
+                'n': 1.59, 'r': prs[j],
+                'center': [3.0 * j, 0.0, 10.0]}} for j in range(m)]
+            sc = b.emit('spheres', {'members': members, 'warn': False},
+                        store='sc')
+            mo = b.emit('model', {'kind': 'alpha', 'sc': sc, 'alpha': 0.8,
+                                  'optics': dict(OPT, noise_sd=0.1),
+                                  'th': 'auto'}, store='mo',
+                        tags={'k': 'model'})
+            b.emit('model_probe', {'mo': mo, 'seed': rng.randrange(1000)},
+                   tags={'k': 'probe', 'probe': True})
+            return mo
+        nt = 0
+        for k in range(2, m + 1):
+            for subset in itertools.combinations(range(m), k):
+                mo = fresh_model()
+                nt += 1
+                b.emit('add_tie', {'mo': mo, 'idx': list(subset),
+                                   'new_name': rng.choice([None,
+                                                           'tied_%d' % nt])},
+                       tags={'k': 'tie', 'tie': True})
+                b.emit('model_probe', {'mo': mo,
+                                       'seed': rng.randrange(1000)},
+                       tags={'k': 'probe', 'probe': True})
+                if k >= 3:
+                    # the same subset composed from pairwise ties: after
+                    # each tie the surviving parameter sits at the smallest
+                    # index and later indices shift down
+                    mo = fresh_model()
+                    order = list(subset)
+                    rng.shuffle(order)
+                    live = list(range(m))        # sphere behind each index
+                    first = order[0]
+                    for nxt in order[1:]:
+                        i, j = live.index(first), live.index(nxt)
+                        b.emit('add_tie', {'mo': mo, 'idx': [i, j]},
+                               tags={'k': 'tie', 'tie': True})
+                        keep, drop = min(i, j), max(i, j)
+                        live[keep] = first if keep == i else nxt
+                        # both spheres now share the kept index
+                        first = live[keep]
+                        del live[drop]
+                        b.emit('model_probe', {
+                            'mo': mo, 'seed': rng.randrange(1000)},
+                            tags={'k': 'probe', 'probe': True})
+        return {'config': {'faults': {}, 'mode': 'exhaustive-ties', 'm': m,
+                           'node': {}}, 'events': b.events}
+
     def generate(self, rng, tier='quick'):
+        if rng.random() < (0.08 if tier == 'quick' else 0.3):
+            return self.generate_exhaustive(rng, tier)
         b = Builder(rng)
         faults = {'F1': rng.random() < 0.5}
         pool = []
